@@ -2,6 +2,7 @@
 from engine import *
 import provenance
 import guards
+import writes
 import mutations
 
 CH = 'lightning::ln::channel::'
@@ -466,3 +467,4 @@ RULES.append(('05.t', 'identity comparisons: every reviewed (function, identity 
 RULES.append(('05.R', 'state resets: every reviewed constant write to persistent state (flag = true / false, counter = 0, pending slot = None) of a function is still made (rules/provenance.py)', lambda F: provenance.flags_for_property(F, 'C05', '05.R')))
 RULES.append(('05.M', 'collection mutations: every reviewed (function, stored collection, mutator class: add / remove / filter / empty / swap / order) triple is still present - an entry that is no longer removed, inserted or drained on one path (rules/mutations.py)', lambda F: mutations.for_property(F, 'C05', '05.M')))
 RULES.append(('05.G', 'guard census: no reviewed call of a workspace function and no reviewed mutation of a stored collection gained a controlling branch condition (an added `&& cond`, early return / continue, more specific match arm in front of an act); counts per call site, name free (rules/guards.py)', lambda F: guards.for_property(F, 'C05', '05.G')))
+RULES.append(('05.W', 'field assignments: every reviewed (function, Type.field) direct assignment is still made - state that a path no longer updates, or updates only conditionally (get_or_insert for an overwrite); generalises NN.R (rules/writes.py)', lambda F: writes.for_property(F, 'C05', '05.W')))
